@@ -14,7 +14,9 @@ pub fn encoding(data: &[u8], hint: Option<String>) -> Option<&'static Encoding> 
 }
 
 pub(crate) fn decode(data: &[u8], hint: Option<String>) -> String {
-    let enc = encoding(data, hint).unwrap();
+    // no detectable or known encoding (empty input, an unknown label, a
+    // UCS-4 byte order mark): try UTF-8, the parser rejects what makes no sense
+    let enc = encoding(data, hint).unwrap_or(encoding_rs::UTF_8);
     let (s, _, _) = enc.decode(data);
     s.into_owned()
 }
